@@ -76,6 +76,13 @@ void report(const char* cls, const std::string& sig, const std::string& detail);
 // configuration seam (getenv wrap): values visible to libosmium as OSMIUM_* environment variables
 void set_env(const std::string& name, const std::string& value);
 void clear_env();
+// values returned through the OSMIUM_VERIF_VALUE hook (osmium_verif_value) of /repo
+void set_value(const std::string& name, unsigned long value);
+void clear_values();
+// clamp for the output length of each gzread/BZ2_bzRead/inflate/BZ2_bzDecompress call (0 = off);
+// same effect as compiling with a smaller Decompressor::input_buffer_size (needs clamp.cpp + wraps_clamp.txt)
+void set_decomp_clamp(size_t bytes);
+size_t decomp_clamp();
 
 // ---------------------------------------------------------------------------------------------
 // Generic worker main: parses the command line, runs `count` runs and prints one JSON line each.
